@@ -419,7 +419,9 @@ def main():
         ck.sample({"network": o["desc"], "opts": o["opts"], "features": o["features"], "verdict": ans[:200]})
     wanted = ["multiple_outputs", "duplicated_operand", "dynamic_weights", "third_party_custom", "custom_options_nonempty",
               "float_detour", "float_tensors", "unsupported_rank_gt4", "unsupported_batch_gt1", "multiple_inputs",
-              "omitted_operand_before_real_operand", "quantisation_min_max", "custom_options_absent"]
+              "omitted_operand_before_real_operand", "quantisation_min_max", "custom_options_absent", "force_symmetric_case",
+              "quantisation_extremes", "rejected_RESHAPE", "rejected_CONV_2D_GROUPS", "reshape_cpu_big", "reshape_cpu_big_minus1",
+              "reshape_cpu_dyn_shape"]
     missing = [w for w in wanted if not ck.counters.get("feature_" + w)]
     ck.finish({
         "programs": programs,
